@@ -8,7 +8,12 @@ from ..propsbase import *
 ASSUMPTIONS = ["one-dimensional arrays of constants and secrets; histories of reads and writes at secret and plain indices compared with "
                "Python lists (harness/ref.py); shapes compared across index values; out-of-range secret indices: must raise with checks "
                "on, and with checks off the emitted system must be unsatisfiable (exhaustive witness search over p = 97)",
-               "two-dimensional access (tuple indices, ArrayRow) is exercised by corpus programs on the Python side only"]
+               "two-dimensional access (tuple indices, ArrayRow) on the Python side only (harness/worker_array2d.py): histories over a "
+               "2-3 x 2-3 matrix with index OBJECTS created once and reused across operations, fresh secret and plain indices, rows read "
+               "at plain indices (the inner object itself: aliasing is list semantics and is modelled in the reference) and at secret "
+               "indices (read-only snapshots), copies, element reads a[i,j] / a[i][j] / r[j], writes a[i,j]=v, a[k][j]=v, r[j]=v, a[i]=row, "
+               "reads inside a taken / not-taken if_then_else branch, some indices outside the array (must raise IndexError at their first "
+               "use outside a branch that is not taken); every value also checked against its wire expression on the recorded witness"]
 PARTIAL = []
 LEVELS = "VS"
 P97 = 97
@@ -46,32 +51,105 @@ def sat_job(job):
 
 
 def gen_2d(rnd):
+    """history over a matrix: index OBJECTS created once and reused across operations (loop-variable style), fresh secret and
+    plain indices; rows read at plain indices (the inner object: aliasing is list semantics) and at secret indices (read-only
+    snapshots), copies; element reads; writes through the matrix, through previously obtained rows and through a plain-index
+    inner row; reads inside a taken / not-taken if_then_else branch; a few indices lie outside the array"""
     rows = rnd.randrange(2, 4); cols = rnd.randrange(2, 4)
     h = {"rows": rows, "cols": cols, "secret": rnd.random() < 0.7,
          "init": [[rnd.randrange(0, 9) for _ in range(cols)] for _ in range(rows)], "ops": []}
-    names = []
-    for _ in range(rnd.randrange(2, 7)):
+    ops = h["ops"]
+    idxs = {}                    # name -> (secret, value, is it meant for rows?)
+    rowvars = {}                 # name -> kind
+    nvar = [0]
+    val = [10]
+
+    def fresh_val():
+        val[0] += 1
+        return val[0]
+
+    def new_idx(for_rows):
+        n = rows if for_rows else cols
+        i = rnd.randrange(n) if rnd.random() < 0.9 else rnd.choice([n, n + 1, -1])
+        name = f"i{len(idxs)}"
+        sec = rnd.random() < 0.85 or not 0 <= i < n
+        idxs[name] = (sec, i, for_rows)
+        ops.append(["idx", name, sec, i])
+        return name
+
+    def spec(for_rows, plain_ok=True):
+        n = rows if for_rows else cols
         c = rnd.random()
-        if c < 0.3 or not names:
-            v = f"v{len(names)}"; names.append(v)
-            # rows are read at a SECRET index (a fresh read-only row); a plain index returns the inner object itself, whose
-            # aliasing with later writes is Python object semantics, not part of the property
-            h["ops"].append(["row", v, True, rnd.randrange(rows)])
-        elif c < 0.5:
-            v = f"v{len(names)}"; src = rnd.choice(names); names.append(v)
-            h["ops"].append(["copy", v, src])
-        elif c < 0.7:
-            h["ops"].append(["set1", rnd.choice(names), rnd.random() < 0.6, rnd.randrange(cols), rnd.randrange(10, 20)])
-        elif c < 0.85:
-            h["ops"].append(["set2", rnd.random() < 0.6, rnd.randrange(rows), rnd.random() < 0.6, rnd.randrange(cols), rnd.randrange(20, 30)])
+        named = [k for k, (s_, i_, fr) in idxs.items() if fr == for_rows or (0 <= i_ < n and rnd.random() < 0.3)]
+        if c < 0.5 and named:
+            return ["n", rnd.choice(named)]
+        if c < 0.6:
+            return ["n", new_idx(for_rows)]
+        if c < 0.8 or not plain_ok:
+            return ["s", rnd.randrange(n) if rnd.random() < 0.93 else rnd.choice([n, -1])]
+        return ["p", rnd.randrange(n)]
+
+    def newvar():
+        nvar[0] += 1
+        return f"v{nvar[0]}"
+
+    for _ in range(rnd.randrange(1, 3)):
+        new_idx(True)
+    for _ in range(rnd.randrange(3, 9)):
+        c = rnd.random()
+        if c < 0.17:
+            v = newvar(); sp = spec(True)
+            rowvars[v] = "alias" if sp[0] == "p" or (sp[0] == "n" and not idxs[sp[1]][0]) else "rowview"
+            ops.append(["row", v, sp])
+        elif c < 0.25 and rowvars:
+            v = newvar(); src = rnd.choice(list(rowvars)); rowvars[v] = "array"
+            ops.append(["copy", v, src])
+        elif c < 0.40:
+            ops.append([rnd.choice(["get2", "get2", "getrc"]), newvar(), spec(True), spec(False)])
+        elif c < 0.47 and rowvars:
+            ops.append(["rowget", newvar(), rnd.choice(list(rowvars)), spec(False)])
+        elif c < 0.57 and rowvars:
+            ops.append(["set1", rnd.choice(list(rowvars)), spec(False), fresh_val()])
+        elif c < 0.70:
+            ops.append(["setchain", rnd.randrange(rows), spec(False), fresh_val()])
+        elif c < 0.82:
+            ops.append(["set2", spec(True), spec(False), fresh_val()])
+        elif c < 0.90 and rowvars:
+            v = rnd.choice(list(rowvars))
+            # a plain-index row write stores the OBJECT: only copies are stored that way (a read-only snapshot inside the
+            # matrix would make later element writes raise by design)
+            sp = spec(True, plain_ok=(rowvars[v] == "array"))
+            if sp[0] == "n" and not idxs[sp[1]][0] and rowvars[v] != "array":
+                sp = ["s", idxs[sp[1]][1]]
+            ops.append(["setrow", sp, v])
         else:
-            h["ops"].append(["setrow", True, rnd.randrange(rows), rnd.choice(names)])     # secret index: no object aliasing
+            ops.append(["bget", newvar(), rnd.choice([0, 0, 1]), spec(True), spec(False)])
+    # read everything back through the reused index objects
+    for k, (sec, i, fr) in idxs.items():
+        if fr and rnd.random() < 0.7:
+            ops.append(["get2", newvar(), ["n", k], ["p", rnd.randrange(cols)]])
     return h
+
+
+def classify_2d(h, at):
+    """scenario class of a two-dimensional history (for the violation signature): what preceded the operation at which it
+    went wrong (or the whole history)"""
+    ops = h["ops"] if at is None else h["ops"][:at + 1]
+    used = {}
+    reuse = False; bypass = False; branch = False
+    for op in ops:
+        named = [x[1] for x in op if isinstance(x, list) and len(x) == 2 and x[0] == "n"]
+        for nme in named:
+            if used.get(nme): reuse = True
+            used[nme] = True
+            if op[0] == "bget" and not op[2]: branch = True
+        if op[0] in ("setchain", "set1"): bypass = True
+    return {"index_object_reused": reuse, "write_through_row": bypass, "index_first_used_in_branch_not_taken": branch}
 
 
 def explore_2d(ctx, ex):
     import json
-    hs = [gen_2d(ctx.rnd) for _ in range(ctx.n(450, 12000))]
+    hs = [gen_2d(ctx.rnd) for _ in range(ctx.n(700, 14000))]
     outs = common.run_workers([f"A2|a{i}|{json.dumps(h)}" for i, h in enumerate(hs)], script="worker_array2d.py")
     for h, o in zip(hs, outs):
         ex.evaluations += 1
@@ -80,6 +158,9 @@ def explore_2d(ctx, ex):
             raise common.Infra(str(d))
         ex.count(f"2d:{d['status']}")
         ex.distinct.add(("2d", json.dumps(h["ops"])))
+        cls = classify_2d(h, d.get("at"))
+        for k, v in cls.items():
+            if v: ex.count(f"2d:{k}")
         if d["status"] == "ok" and d["refstatus"] == "ok":
             ex.traces_validated += 1
             bad = None
@@ -90,14 +171,18 @@ def explore_2d(ctx, ex):
                     if d["vars"].get(k) != v:
                         bad = f"{k}: {d['vars'].get(k)} vs list semantics {v}"; break
             if bad:
-                ex.violations.append(Violation({"instr": "array2d", "dev": "wrong-value"},
+                ex.violations.append(Violation(dict(cls, instr="array2d", dev="wrong-value"),
                                                f"two-dimensional history: {bad}", {"history": h}))
             if d.get("unsat"):
-                ex.violations.append(Violation({"instr": "array2d", "dev": "unsatisfied"},
+                ex.violations.append(Violation(dict(cls, instr="array2d", dev="unsatisfied"),
                                                f"two-dimensional history: constraint #{d['unsat'][0]} not satisfied", {"history": h}))
+            if d.get("incoh"):
+                ex.violations.append(Violation(dict(cls, instr="array2d", dev="incoherent"),
+                                               f"two-dimensional history: value of {d['incoh'][0]} differs from its wire expression on the recorded witness", {"history": h}))
         elif d["status"] != d["refstatus"] and "TypeError" not in (d["status"], d["refstatus"]):
-            ex.violations.append(Violation({"instr": "array2d", "dev": "raises", "error": d["status"]},
-                                           f"two-dimensional history ends with {d['status']}, list semantics with {d['refstatus']}", {"history": h}))
+            ex.violations.append(Violation(dict(cls, instr="array2d", dev="raises", error=d["status"], expected=d["refstatus"]),
+                                           f"two-dimensional history: operation #{d.get('at')} {h['ops'][d['at']] if d.get('at') is not None else ''} "
+                                           f"ends with {d['status']}, list semantics with {d['refstatus']}", {"history": h}))
 
 
 def explore(ctx, extended=False, focus=None):
@@ -193,5 +278,9 @@ def explore(ctx, extended=False, focus=None):
 
 def replay(ctx, payload):
     rp = payload["replay"]
+    if "history" in rp:
+        import json
+        print(common.run_workers([f"A2|r|{json.dumps(rp['history'])}"], script="worker_array2d.py")[0][:3000])
+        return 0
     replay_case(rp.get("case") or rp.get("case_a"))
     return 0
